@@ -15,13 +15,22 @@ FORBIDDEN = re.compile(r"\bsorry\b|\badmit\b|^\s*axiom\s|native_decide|bv_decide
 
 
 class lock(object):
+    """exclusive, re-entrant (per process) lock over regenerate + build + audit + driver snapshot, so that
+    concurrent checks (possibly against different $DENDROPY_REPO) never see each other's Gen/*.lean"""
+    depth = 0
+    f = None
+
     def __enter__(self):
-        self.f = open(LOCK, "w")
-        fcntl.flock(self.f, fcntl.LOCK_EX)
+        if lock.depth == 0:
+            lock.f = open(LOCK, "w")
+            fcntl.flock(lock.f, fcntl.LOCK_EX)
+        lock.depth += 1
 
     def __exit__(self, *a):
-        fcntl.flock(self.f, fcntl.LOCK_UN)
-        self.f.close()
+        lock.depth -= 1
+        if lock.depth == 0:
+            fcntl.flock(lock.f, fcntl.LOCK_UN)
+            lock.f.close()
         return False
 
 
@@ -157,11 +166,26 @@ def audit(prop, mods, theorems):
     return res, out
 
 
+def snapshot_driver(exe):
+    """private copy of a freshly built driver (taken inside the lock), removed at interpreter exit"""
+    import atexit
+    import shutil
+    src = os.path.join(BIN, exe)
+    if not os.path.exists(src):
+        return None
+    d = os.path.join(LEAN_DIR, ".lake", "drv-snap")
+    os.makedirs(d, exist_ok=True)
+    dst = os.path.join(d, "%s.%d" % (exe, os.getpid()))
+    shutil.copy2(src, dst)
+    atexit.register(lambda: os.path.exists(dst) and os.remove(dst))
+    return dst
+
+
 class Driver(object):
     """batch line-protocol client of a compiled Lean driver"""
 
-    def __init__(self, exe):
-        self.exe = os.path.join(BIN, exe)
+    def __init__(self, exe, path=None):
+        self.exe = path or os.path.join(BIN, exe)
         self.name = exe
 
     def available(self):
